@@ -34,6 +34,9 @@ type c17Op struct {
 	ChildE   int           `json:"child_encr,omitempty"`
 	ChildI   int           `json:"child_integ,omitempty"` // 0..2, 3 = none
 	Nonce    model.Bytes   `json:"nonce,omitempty"`
+	// Bulk > 0 (protect / unprotect-genuine): the message is a synthetic one carrying one Vendor ID payload of this many
+	// octets (content a function of the step number), so that an SA moves megabytes within one history
+	Bulk int `json:"bulk_octets,omitempty"`
 }
 
 type c17In struct {
@@ -110,6 +113,17 @@ func c17Oracle(in c17In) probe.Outcome {
 		}
 		labels = append(labels, "op:"+op.Op)
 		step := fmt.Sprintf("step %d (%s)", i, op.Op)
+		if op.Bulk > 0 {
+			data := make(model.Bytes, op.Bulk)
+			for j := range data {
+				data[j] = byte(j*7+i*13) ^ byte(j>>8)
+			}
+			op.Msg = model.Message{Header: model.Header{ISPI: 0x1111, RSPI: 0x2222, Major: 2, Exchange: 37, Flags: 0x08, MsgID: uint32(i)},
+				Payloads: []model.Payload{{Kind: model.KVendor, Data: data}}}
+			if i < 3 {
+				labels = append(labels, "bulk")
+			}
+		}
 		rejected := false
 		switch op.Op {
 		case "protect":
@@ -316,8 +330,45 @@ var c17History = probe.Define("C17", "history", func(t *rapid.T) c17In {
 	in.Keys.D = gen.Fill(t, "sk_d", ref.Prfs[in.Suite.Prf].KeyLen)
 	n := gen.Len(t, "nops", 1, 64, 3, 8, 64)
 	small := gen.Opts{MaxPayloads: 3, NoBig: true, MaxChain: 2000}
-	for i := 0; i < n; i++ {
-		in.Ops = append(in.Ops, c17GenOp(t, small))
+	switch rapid.IntRange(0, 39).Draw(t, "historyclass") {
+	case 0:
+		// bulk: one SA moves several megabytes (mostly protecting in one role)
+		role := rapid.Bool().Draw(t, "bulkrole")
+		for i := 0; i < 64; i++ {
+			op := c17Op{Op: "protect", AsI: role, Bulk: rapid.SampledFrom([]int{30000, 60000, 65000}).Draw(t, "bulk"), Producer: "fresh-lib", IV: make(model.Bytes, 16)}
+			if i%9 == 8 {
+				op.Op, op.AsI = "unprotect-genuine", !role
+			}
+			in.Ops = append(in.Ops, op)
+		}
+		return in
+	case 1, 2:
+		// a run of forgeries (15..40 in a row), then business as usual
+		k := rapid.SampledFrom([]int{15, 16, 17, 24, 40}).Draw(t, "forgeries")
+		role := rapid.Bool().Draw(t, "forgery-role")
+		for i := 0; i < k && len(in.Ops) < 60; i++ {
+			// altered copies of genuine messages: each one reaches the checksum comparison and fails it (position 1 mod 3: the
+			// long-lived SA is not shown the genuine message first; mostly one role, so that the failures are consecutive for
+			// whatever the SA counts per direction)
+			asI := role
+			if rapid.IntRange(0, 9).Draw(t, "other-role") == 9 {
+				asI = !role
+			}
+			in.Ops = append(in.Ops, c17Op{Op: "unprotect-tampered", AsI: asI, WithHdr: rapid.Bool().Draw(t, "withhdr"), Msg: gen.Message(t, small),
+				Pos: 1 + 3*rapid.IntRange(10, 900).Draw(t, "pos"), Bit: rapid.IntRange(0, 7).Draw(t, "bit"), Producer: "ref", IV: gen.Fill(t, "iv", 16)})
+		}
+		in.Ops = append(in.Ops, c17Op{Op: "unprotect-genuine", AsI: rapid.Bool().Draw(t, "asI"), Msg: gen.Message(t, small), Producer: "ref", IV: gen.Fill(t, "iv", 16)})
+		n = 3
+	}
+	for i := 0; i < n && len(in.Ops) < 64; i++ {
+		op := c17GenOp(t, small)
+		// the same message once more (same message id, same content) - as the other role, or as the same one: a
+		// retransmission, a liveness check answered with the request's id
+		if prev := len(in.Ops) - 1; prev >= 0 && (op.Op == "protect" || op.Op == "unprotect-genuine") && in.Ops[prev].Bulk == 0 &&
+			(in.Ops[prev].Op == "protect" || in.Ops[prev].Op == "unprotect-genuine") && rapid.IntRange(0, 3).Draw(t, "same-message-again") == 3 {
+			op.Msg = in.Ops[prev].Msg
+		}
+		in.Ops = append(in.Ops, op)
 	}
 	return in
 }, c17Oracle)
